@@ -7,6 +7,9 @@ RULE = ("Gen_Types.tla: the value algebra of the geo-types primitives, as promis
         "from 3.14159 < pi < 3.14160 for degrees / radians); the harness runs the real constructors, accessors, operators, iterators and conversions "
         "for f64, f32, i64 and i32 and compares with ==. Mode pair (all pairs of coordinates on -2..3 squared, every scalar of -2..3): Coord / Point "
         "Add Sub Neg Mul Div (+ assign forms), zero, equality, x_y, dot, to_degrees / to_radians, conversions Coord <-> Point <-> tuple <-> array; "
+        "geo::Vector2DOps of Coord (float scalars): wedge_product (both orders), dot_product, magnitude_squared, left / right as documented, "
+        "is_finite, magnitude (exact for perfect squares, else strictly inside the integer bracket of the root), try_normalize (None exactly for the "
+        "zero vector, the signed unit axis vector for axis-parallel input, else a unit vector parallel to a with its signs); "
         "Line new (argument order, three argument types), From<[(T,T);2]>, dx dy delta slope determinant start_point end_point points; Rect::new / "
         "try_new with the corners in any order = min / max, width, height, center, to_polygon and to_lines in the documented corner sequence, "
         "split_x / split_y halves with the documented corner placement (integer scalars of odd extent: the cut is one of the two neighbouring "
@@ -54,7 +57,9 @@ rect_new_from_tuples rect_new_max rect_new_min rect_set_max rect_set_max_panics 
 rect_to_lines rect_to_polygon rect_try_new rect_width triangle_from_array_is_ccw triangle_from_array_is_ccw_cw_input
 triangle_from_array_keeps_vertices triangle_from_array_of_tuples triangle_new_collinear_keeps_vertices triangle_new_is_ccw triangle_new_order
 triangle_to_array triangle_to_lines triangle_to_polygon""".split()
-FLOAT_ONLY = ["line_slope_reversal_degenerate", "line_slope_reversal_vertical", "point_to_degrees", "point_to_radians", "rect_center"]
+FLOAT_ONLY = ["line_slope_reversal_degenerate", "line_slope_reversal_vertical", "point_to_degrees", "point_to_radians", "rect_center",
+              "coord_vec_wedge", "coord_vec_wedge_swapped", "coord_vec_dot", "coord_vec_magnitude_squared", "coord_vec_left", "coord_vec_right",
+              "coord_vec_is_finite", "coord_vec_magnitude", "coord_vec_try_normalize_zero", "coord_vec_try_normalize_axis", "coord_vec_try_normalize"]
 INT_ONLY = ["rect_split_x_odd_extent", "rect_split_y_odd_extent"]
 SUBS = [s + x for s in ALL4 for x in ("", "_f32", "_i64", "_i32")] + [s + x for s in FLOAT_ONLY for x in ("", "_f32")] + \
        [s + x for s in INT_ONLY for x in ("_i64", "_i32")]
